@@ -83,6 +83,16 @@ CHECKS["C06"] = (
     "DESIGN.md section 3, C06",
 )
 
+CHECKS["C05"] = (
+    "bounded-exhaustive enumeration of SQL-representable interfaces x variants x configurations on the implementation; reference model + differential oracle",
+    "All interfaces of 1-3 columns (thorough 4) over 12 type shapes, legal defaults, PK/FK markers and primary-key-candidate names x "
+    "{class, Table, hybrid} x 3 styles x force_pk_id are emitted, rendered, re-read and parsed; the result must equal a reference model "
+    "of the documented primary-key inference, the three variants must agree pairwise, and every emission must contain exactly one "
+    "primary_key=True.",
+    "reference model of primary-key inference in mc/checks/c05.py; SQLAlchemy not installed, emitted code analysed as AST only",
+    "DESIGN.md section 3, C05",
+)
+
 PENDING_REASON = "check not built yet in this revision (planned, see DESIGN.md section 3); no claim is made"
 
 
